@@ -497,7 +497,7 @@ def strip_calls(text, allowed):
     return out
 
 
-def leaks(state, name, allowed_calls, ignore_targets=(), sanitizers=None, substring=False):
+def leaks(state, name, allowed_calls, ignore_targets=(), sanitizers=None, substring=False, global_names=()):
     """Places where `name` escapes on this path other than through an allowed (encrypting) call:
        attribute stores, |= , return value, yields, and calls that are not in `allowed_calls`.
 
@@ -524,6 +524,10 @@ def leaks(state, name, allowed_calls, ignore_targets=(), sanitizers=None, substr
             out.append(('return', 'return %s' % ev[1], ev[2]))
         if ev[0] == 'yield' and mentions(strip_calls(ev[1], sanitizers), name):
             out.append(('yield', 'yield %s' % ev[1], ev[2]))
+        if ev[0] == 'raise' and mentions(strip_calls(ev[1], sanitizers), name):
+            out.append(('raise', 'raise %s' % ev[1], ev[2]))
+        if ev[0] == 'assign' and ev[1] in global_names and mentions(strip_calls(ev[2], sanitizers), name):
+            out.append(('global', 'global %s = %s' % (ev[1], ev[2]), ev[3]))
     for ft, args, kw, line, node in state.calls:
         base = ft.split('.')[-1]
         if base in allowed_calls or ft in allowed_calls:
